@@ -352,7 +352,7 @@ func c13Run(t *testing.T, p c13Plan) (res vfResult) {
 				continue
 			}
 			switch name {
-			case "X-Forwarded-For", "X-Forwarded-Proto", "X-Forwarded-Host", "Forwarded", "X-Request-Id", "X-Request-Start", "X-Vf-Tls", "Content-Length":
+			case "X-Forwarded-For", "X-Forwarded-Proto", "X-Forwarded-Host", "Forwarded", "X-Vf-Tls", "Content-Length":
 				continue
 			}
 			want := c13Values(p.Headers, name)
